@@ -1,5 +1,6 @@
 import NgVerif.Proofs.Convert
 import NgVerif.Proofs.Conv
+import NgVerif.Proofs.CsegList
 /-
   C13 — Re-encoding a dataset preserves its voxels exactly for lossless targets.
   The loop of `convert_chunks` over a reader and a writer of the dataset I/O layer (C03), for any
@@ -100,6 +101,15 @@ theorem raw_codec_lossless (itemsize : Nat) (hk : 0 < itemsize) (vals : List Nat
     (hv : ∀ v ∈ vals, v < 256 ^ itemsize) :
     Raw.decode itemsize vals.length (Raw.encode itemsize vals) = .ok vals :=
   Raw.decode_encode itemsize hk vals hv
+
+/-- compressed_segmentation destination: the codec hypothesis holds for every chunk shape, block
+    size and label array the encoder accepts (decoder written from the format specification) -/
+theorem cseg_codec_lossless (itemsize : Nat) (hi : itemsize = 4 ∨ itemsize = 8) (s : Cseg.Shape)
+    (bk : Cseg.Blk3) (d : List Nat) (hbx : 0 < bk.bx) (hby : 0 < bk.by') (hbz : 0 < bk.bz)
+    (hvals : ∀ v ∈ d, v < 2 ^ (8 * itemsize)) (hd : d.length = s.c * s.z * s.y * s.x)
+    (file : Bytes) (h : Cseg.encode itemsize s bk d = some file) :
+    Cseg.specDecode itemsize s bk file = some d :=
+  Cseg.specDecode_encode itemsize hi s bk d hbx hby hbz hvals hd file h
 
 /-- "wider data type": an integer conversion whose output range contains the input range is the
     identity on every representable value -/
